@@ -17,7 +17,8 @@ re-ordering of the Fock `measure_fock`, the front-end scalings and the engine's 
   quadratures plus the measurement noise.
 * `heterodyne_select_agree`, `heterodyne_sample_select_inverse`, `hbar_select` — scalings of post-selection
   values and reported values are consistent across back ends and inverse to each other.
-* `fock_outcome_order` — `outcome[j]` is the photon number of `modes[j]` for any order of `modes`.
+* `fock_outcome_order` — `outcome[j]` is the photon number of `modes[j]` for any order of `modes`;
+  `fock_index_roundtrip` — flat index of the sampled distribution ↔ multi-index.
 * `samples_dict_latest`, `samples_layout` — one row per shot, columns in ascending mode order, each column
   the latest outcome of its mode, for all measurement histories and shot counts.
 * `threshold_weights`, `reweight_normalised` — bosonic weights after a click / a post-selection sum to one.
@@ -137,6 +138,12 @@ theorem fock_outcome_order (n : Nat) (measure : List Nat) (hnd : measure.Nodup) 
   rw [scatter_argsort measure _ hnd (by simp [unIndex]) j hj,
     rank_eq_keptPos n measure hnd measure[j] (hlt _ (List.getElem_mem hj))]
 
+/-- **fock_index_roundtrip.**  The flat position (`np.ravel`, C order) of every multi-index below the cutoff is
+decoded by `unIndex` to that multi-index: entry `i` of the probability vector handed to `choice` is the diagonal
+entry of the reduced density matrix at `unIndex i`, for every number of measured modes and every cutoff -/
+theorem fock_index_roundtrip (D : Nat) (p : List Nat) (hp : ∀ v ∈ p, v < D) :
+    unIndex (flatIndex D p) p.length D = p := unIndex_flatIndex D p hp
+
 /-! ### engine: sample collation -/
 
 /-- **samples_dict_latest.**  After any history `evs` followed by a measurement command on the distinct modes
@@ -246,6 +253,7 @@ example : (2 : Rat) * 3 - 1 * 1 ≠ 0 := by norm_num
 /-- a 3-cycle of the modes (not an involution), register of 4 modes; the axis of mode 3 in the reduced state is 2 -/
 example : ([3, 0, 1] : List Nat).Nodup ∧ (∀ m ∈ ([3, 0, 1] : List Nat), m < 4) ∧ unIndex 5 3 3 = [0, 1, 2] ∧
     keptPos (unmeasured 4 [3, 0, 1]) 3 = 2 ∧ keptPos (unmeasured 4 [3, 0, 1]) 0 = 0 := by decide
+example : (∀ v ∈ ([2, 0, 3] : List Nat), v < 4) ∧ flatIndex 4 [2, 0, 3] = 35 := by decide
 /-- two commands, the second re-measures mode 3 and measures in descending order; 2 shots -/
 example : combineAndSort (runSamples [([3, 1], [[30, 10], [31, 11]]), ([4, 3], [[40, 33], [41, 34]])])
     = [[10, 33, 40], [11, 34, 41]] := by decide
